@@ -638,6 +638,9 @@ def describe(plan):
 MINIMISE_KW = {"protect": ("engine", "level", "model", "op", "how", "via", "exc", "local", "tree"),
                "list_keys": ("ops", "setup", "idx", "edges"), "budget_s": 60.0, "max_tries": 200}
 
+# the first N runs are repeated in interpreters with another PYTHONHASHSEED
+CROSS_HASHSEED = 160
+
 EVIDENCE = {
     "rule": (
         "history = plan-generated ops. calc level (2/3 of runs): 4-14 (quick) / 4-40 (thorough) steps of full vectors, "
